@@ -28,6 +28,9 @@ func oracleC01(out []byte) string {
 }
 
 func oracleC03(out []byte) string {
+	if bytes.IndexByte(out, 10) < 0 {
+		return "" // single line: nothing to split (well-formedness is C01)
+	}
 	if !LINE(out) {
 		return "a line feed lies between a start marker and its end marker"
 	}
